@@ -45,7 +45,7 @@ pub fn configs(prop: &str, thorough: bool) -> Vec<SimConfig> {
                 c.burst = true;
                 c.macro_finish = !fine;
                 if k == 4 {
-                    c.max_depth = Some(16);
+                    c.max_depth = Some(20);
                 }
                 v.push(c);
             }
@@ -78,7 +78,7 @@ pub fn configs(prop: &str, thorough: bool) -> Vec<SimConfig> {
                 c.ev_dial_fail = false;
                 c.ev_close = false;
                 c.macro_finish = true;
-                c.max_depth = Some(if thorough { 16 } else { 13 });
+                c.max_depth = Some(if thorough { 18 } else { 13 });
                 v.push(c);
             }
             // mixed protocols, two origins, full alphabet, small bound
@@ -122,7 +122,9 @@ pub fn configs(prop: &str, thorough: bool) -> Vec<SimConfig> {
                     c3.ev_close = false;
                     c3.ev_dial_fail = false;
                     c3.ev_cancel = thorough;
-                    c3.max_depth = Some(if thorough { 16 } else { 13 });
+                    // the state graphs of the six menus are isomorphic whenever the keys are distinct (same counts);
+                    // two of them go to the deeper bound
+                    c3.max_depth = Some(if thorough { if name == "scheme" || name == "upper-case-ports" { 16 } else { 14 } } else { 13 });
                     v.push(c3);
                 }
             }
@@ -148,7 +150,7 @@ pub fn configs(prop: &str, thorough: bool) -> Vec<SimConfig> {
             c.ev_dial_fail = false;
             c.ev_close = false;
             c.ev_cancel = false;
-            c.max_depth = Some(if thorough { 15 } else { 11 });
+            c.max_depth = Some(if thorough { 16 } else { 11 });
             v.push(c);
         }
         "C05" => {
@@ -164,7 +166,7 @@ pub fn configs(prop: &str, thorough: bool) -> Vec<SimConfig> {
             c.ev_cancel = false;
             c.ev_dial_fail = false;
             c.allow_h2 = thorough;
-            c.max_depth = Some(if thorough { 17 } else { 14 });
+            c.max_depth = Some(if thorough { 18 } else { 14 });
             v.push(c);
             let mut c = full("n2-lax-is-open", 2, true);
             c.strict_is_open = false;
@@ -191,7 +193,7 @@ pub fn configs(prop: &str, thorough: bool) -> Vec<SimConfig> {
             c.ev_cancel = false;
             c.ev_dial_fail = false;
             c.macro_finish = true;
-            c.max_depth = Some(if thorough { 18 } else { 15 });
+            c.max_depth = Some(if thorough { 19 } else { 15 });
             v.push(c);
             if thorough {
                 let mut c = full("n4-macro-idle-ages", 4, true);
@@ -250,9 +252,9 @@ pub fn configs(prop: &str, thorough: bool) -> Vec<SimConfig> {
                 }
                 c.max_depth = Some(match (prop, thorough) {
                     ("C03" | "C19", false) => 13,
-                    ("C03" | "C19", true) => 15,
+                    ("C03" | "C19", true) => 17,
                     (_, false) => 13,
-                    (_, true) => 16,
+                    (_, true) => 18,
                 });
                 v.push(c);
             }
@@ -262,20 +264,20 @@ pub fn configs(prop: &str, thorough: bool) -> Vec<SimConfig> {
                 for preempt in [true, false] {
                     let mut c = full(&format!("n3-macro-preempt-{preempt}"), 3, preempt);
                     c.macro_finish = true;
-                    c.max_depth = Some(if thorough { 16 } else { 13 });
+                    c.max_depth = Some(if thorough { if prop == "C04" { 17 } else { 18 } } else { 13 });
                     v.push(c);
                 }
             }
             if thorough {
                 for preempt in [true, false] {
                     let mut c = full(&format!("n3-full-preempt-{preempt}"), 3, preempt);
-                    c.max_depth = Some(if prop == "C03" || prop == "C19" { 12 } else { 14 });
+                    c.max_depth = Some(if prop == "C03" || prop == "C19" { 14 } else { 15 });
                     v.push(c);
                 }
                 let mut c = full("n4-h2-only-slice", 4, true);
                 c.allow_h1 = false;
                 c.ev_close = false;
-                c.max_depth = Some(12);
+                c.max_depth = Some(15);
                 v.push(c);
             }
         }
